@@ -14,9 +14,10 @@ STR_LITS = ["", "a", "b", "ab", "abc", "B", "ä", "foo bar"]
 
 
 class G:
-    def __init__(self, src, wrong=0.12):
+    def __init__(self, src, wrong=0.12, dup_keys=0.0):
         self.src = src
         self.wrong = wrong
+        self.dup_keys = dup_keys   # probability that a context literal repeats one of its keys (an error case: only for checks without a value oracle)
         self.fresh = 0
         self.in_between = 0      # the parser rejects a `between` nested anywhere inside a `between` operand (C06 finding): excluded
         self.excluded_nested_between = 0
@@ -101,7 +102,7 @@ class G:
         if k == NUM:
             prods = [(3, self.p_arith), (1, self.p_neg), (2, self.p_if), (2, self.p_path), (2, self.p_index), (2, self.p_call),
                      (2, self.p_count), (1, self.p_sum), (1, self.p_strlen), (2, self.p_ctxpath), (1, self.p_leaf),
-                     (1, self.p_closure), (1, self.p_closure_loop), (1, self.p_shadow_builtin)]
+                     (1, self.p_closure), (1, self.p_closure_loop), (1, self.p_shadow_builtin), (1, self.p_recursion)]
         elif k == STR:
             prods = [(3, self.p_concat), (2, self.p_if), (2, self.p_path), (2, self.p_index), (2, self.p_call), (2, self.p_ctxpath),
                      (1, self.p_leaf)]
@@ -312,6 +313,9 @@ class G:
         for name, kk in k[1]:
             entries.append([name, self.expr(kk, d - 1, env2)])
             env2[name] = kk   # later entries see earlier ones
+        if entries and self.dup_keys and self.src.bool(self.dup_keys):
+            name, kk = self.src.choice(list(k[1]))
+            entries.insert(self.src.int(1, len(entries)), [name, self.expr(kk, 0, env2)])
         return ["ctx", entries]
 
     def p_ctxpath(self, k, d, env):
@@ -367,6 +371,22 @@ class G:
         if shape == "for":
             return ["filter", ["for", [[bn, ["dl", ["list", [udf]]]]], call], ["idx", ["num", "1"]]]
         return ["call", ["fn", [[bn, None]], call], [udf]]
+
+    def p_recursion(self, k, d, env):
+        """well-founded recursion by self-application: (function(sf, sn) sf(sf, sn))(function(sg, sn) if sn <= 0 then B else sn OP sg(sg, sn - 1), N)
+        -- terminates only because the branch of `if` that is not taken is not evaluated"""
+        s = self.src
+        op = s.choice(["+", "*", "-"])
+        base = ["num", s.choice(["0", "1", "2"])]
+        n = ["num", s.choice(["0", "1", "2", "3", "4"])]
+        rec = ["call", ["name", "sg"], [["name", "sg"], ["arith", "-", ["name", "sn"], ["num", "1"]]]]
+        step = ["if", ["cmp", "<=", ["name", "sn"], ["num", "0"]], base, ["arith", op, ["name", "sn"], rec]]
+        if s.bool(0.3):
+            # the recursive call in the THEN branch instead
+            step = ["if", ["cmp", ">", ["name", "sn"], ["num", "0"]], ["arith", op, ["name", "sn"], rec], base]
+        worker = ["fn", [["sg", None], ["sn", None]], step]
+        driver = ["fn", [["sf", None], ["sn", None]], ["call", ["name", "sf"], [["name", "sf"], ["name", "sn"]]]]
+        return ["call", driver, [worker, n]]
 
     def p_closure(self, k, d, env):
         """{k: function(p) function(q) p + q, m: k(e1), g: m(e2)}.g  -- the inner function captures p lexically"""
